@@ -41,6 +41,25 @@ class Anchors:
         if note:
             self.notes[name] = note
 
+    @staticmethod
+    def module_private(f):
+        """declared without `pub` / `pub(crate)`: callable only from its own module -- a helper, never a role"""
+        v = f.vis or ''
+        return f.kind != 'Closure' and not f.trait and v.startswith('Restricted(') and 'DefId(0:0 ' not in v
+
+    def xf(self, f):
+        """f with its module-private helpers folded in (rules/inline.py): roles are recognised by what the function does, whether or not part of it
+        was extracted into a private helper"""
+        if f is None:
+            return None
+        if not hasattr(self, '_xf'):
+            self._xf = {}
+            self._xkeep = {g for g in self.facts.fns if not self.module_private(g)}
+        if f.path not in self._xf:
+            import inline
+            self._xf[f.path] = inline.expand(self.facts, f, self._xkeep)
+        return self._xf[f.path]
+
     def _methods_of(self, adt_name):
         return [f for f in self.facts.fns if f.kind == 'AssocFn' and f.self_adt and last_seg(f.self_adt) == adt_name and not f.trait]
 
@@ -81,8 +100,10 @@ class Anchors:
         fl = self._methods_of('Freelist')
         rel, fre, alo, ini = [], [], [], []
         for f in fl:
-            fp = effects_on(F, f, 'Freelist', 'free_pages')
-            pp = effects_on(F, f, 'Freelist', 'pending_pages')
+            if self.module_private(f) and any(g is not f and not self.module_private(g) for g in F.callers(f)):
+                continue          # a private helper of the role functions
+            fp = effects_on(F, self.xf(f), 'Freelist', 'free_pages')
+            pp = effects_on(F, self.xf(f), 'Freelist', 'pending_pages')
             ins_fp, rem_fp = bool(fp & INSERTING - {'store', 'store-via-ptr'}) or 'insert' in fp, bool(fp & REMOVING)
             ins_pp, rem_pp = bool(pp & (INSERTING - {'store', 'store-via-ptr'})), bool(pp & REMOVING)
             if rem_pp and ins_fp:
@@ -103,10 +124,19 @@ class Anchors:
         tfl = self._methods_of('TxFreelist')
         fr = self.roles.get('free-role')
         al = self.roles.get('alloc-role')
-        self._set('tx-free-role', self._unique([f for f in tfl if fr in cg.get(f, ())], 'free'),
+        def xcalls(f):
+            # callees of f with its module-private helpers folded in
+            x = self.xf(f)
+            out = {t for _, _, t, _ in F.call_sites(x) if t is not None}
+            for g in F.fn_refs(x):        # ... and inside the closures it creates (`range.for_each(|id| inner.free(tx_id, id))`)
+                if g.kind == 'Closure':
+                    out |= {t for _, _, t, _ in F.call_sites(g) if t is not None}
+            return out
+        tfl = [f for f in tfl if not (self.module_private(f) and any(not self.module_private(g) for g in F.callers(f)))]
+        self._set('tx-free-role', self._unique([f for f in tfl if fr in xcalls(f)], 'free'),
                   'TxFreelist method calling the Freelist free-role')
-        self._set('tx-alloc-role', self._unique([f for f in tfl if al in cg.get(f, ()) and
-                                                 effects_on(F, f, 'TxFreelist', 'pages') & INSERTING], 'allocate'),
+        self._set('tx-alloc-role', self._unique([f for f in tfl if al in xcalls(f) and
+                                                 effects_on(F, self.xf(f), 'TxFreelist', 'pages') & INSERTING], 'allocate'),
                   'TxFreelist method calling the Freelist alloc-role and inserting into TxFreelist.pages')
         # ---- checksum role: Meta method that calls Hasher::finish ; valid role: Meta method comparing hash with it
         def calls(f, suffix):
